@@ -1,6 +1,7 @@
 package bttest
 
 import (
+	"errors"
 	"fmt"
 	"os"
 	"path/filepath"
@@ -9,7 +10,9 @@ import (
 	btapb "cloud.google.com/go/bigtable/admin/apiv2/adminpb"
 	"github.com/syndtr/goleveldb/leveldb"
 	"github.com/syndtr/goleveldb/leveldb/comparer"
+	lderrors "github.com/syndtr/goleveldb/leveldb/errors"
 	"github.com/syndtr/goleveldb/leveldb/opt"
+	"github.com/syndtr/goleveldb/leveldb/storage"
 	"google.golang.org/protobuf/proto"
 )
 
@@ -125,18 +128,44 @@ var _ Storage = LeveldbDiskStorage{}
 
 func newDiskDb(path string, nuke bool) *leveldb.DB {
 	if nuke {
-		_ = fsRemoveAll(path)
+		// Move the old data out of the way atomically first, so that an interrupted
+		// removal never leaves a half-deleted database behind at path.
+		trash := path + ".deleted"
+		_ = fsRemoveAll(trash)
+		if err := fsRename(path, trash); err == nil {
+			_ = fsRemoveAll(trash)
+		} else {
+			_ = fsRemoveAll(path)
+		}
 	}
 
-	db, err := openDiskLeveldb(path, &opt.Options{
+	o := &opt.Options{
 		Comparer:                     comparer.DefaultComparer,
 		Compression:                  opt.NoCompression,
 		DisableBufferPool:            true,
 		DisableLargeBatchTransaction: true,
-	})
+	}
+	db, err := openDiskLeveldb(path, o)
+	if err != nil && manifestMissing(err) {
+		// The process was killed while this database was being created: it has no
+		// manifest yet, so nothing in it was ever acknowledged. Start over.
+		_ = fsRemoveAll(path)
+		db, err = openDiskLeveldb(path, o)
+	}
 	if err != nil {
 		panic(err)
 	}
 	simYield("disk.opened")
 	return db
+}
+
+// manifestMissing reports whether opening failed because the directory holds leveldb
+// files but no manifest, which is what an interrupted creation leaves behind.
+func manifestMissing(err error) bool {
+	var ce *lderrors.ErrCorrupted
+	if !errors.As(err, &ce) || ce.Fd.Type != storage.TypeManifest {
+		return false
+	}
+	_, ok := ce.Err.(*lderrors.ErrMissingFiles)
+	return ok
 }
